@@ -43,3 +43,20 @@ Definition uses (v : sstr) (r : srow) : bool := existsb (keqb v) (r_vars r).
 Definition variable_indices (rows : list srow) (v : sstr) : list nat :=
   fold_right ins_nat []
     (flat_map (fun r => if uses v r then match lookup_term rows (r_factors r) with Some ix => ix | None => [] end else []) rows).
+
+(* ModelSpec.subset(terms): term_structure = {s.term: s for s in structure if s.term in chosen} (a dict keyed by Term identity), then
+   structure = [term_structure[t] for t in chosen]: the rows of the chosen terms, IN THE ORDER CHOSEN ("the model spec column ordering
+   will follow the ordering of the terms in terms_spec"); a chosen term the spec does not have is an error (None) *)
+Definition row_table (rows : list srow) : list (list sstr * srow) :=
+  fold_left (fun d p => tdset (tkey (r_factors (fst p))) (snd p) d) (combine rows rows) [].
+Fixpoint subset (rows : list srow) (chosen : list (list sstr)) : option (list srow) :=
+  match chosen with
+  | [] => Some []
+  | c :: r => match tdget (tkey c) (row_table rows), subset rows r with Some x, Some xs => Some (x :: xs) | _, _ => None end
+  end.
+(* ModelSpec.get_term_indices(terms): the positions of the chosen terms' columns, in the order chosen *)
+Fixpoint get_term_indices (rows : list srow) (chosen : list (list sstr)) : option (list nat) :=
+  match chosen with
+  | [] => Some []
+  | c :: r => match lookup_term rows c, get_term_indices rows r with Some x, Some xs => Some (x ++ xs) | _, _ => None end
+  end.
